@@ -285,4 +285,280 @@ theorem parseCommand_function (n : Nat) (name : Word) (body : CompoundCommand) (
   simp only [decide_true, Bool.and_self, if_true, hrp, hsn, parseFullCompound, hc, hr, Option.map_some,
     List.headD_cons]
 
+
+/-! ## Layer 4: `case` -/
+
+/-- `Operator::from(CaseContinuation)` -/
+def contOp : CaseCont → Op
+  | .break_ => .semicolonSemicolon
+  | .fallThrough => .semicolonAnd
+  | .continue_ => .semicolonBar
+
+theorem caseContOf_contOp (k : CaseCont) : caseContOf (contOp k) = some k := by cases k <;> rfl
+
+/-- the terminator of a case item, printed before a blank, is read as that operator -/
+theorem lexToken_cont (k : CaseCont) (x : List Char) (sp : Bool) :
+    lexToken ((if sp then [' '] else []) ++ (k.str ++ ' ' :: x)) = some (⟨[], .op (contOp k)⟩, ' ' :: x) := by
+  have hk := fun r => skipLC_cons_ne ';' r (by decide)
+  have key : ∀ c2 : Char, ∀ o : Op, lexOperator (';' :: c2 :: ' ' :: x) = some (o, ' ' :: x) →
+      lexToken ((if sp then [' '] else []) ++ (';' :: c2 :: ' ' :: x)) = some (⟨[], .op o⟩, ' ' :: x) := by
+    intro c2 o ho
+    have hsb : skipBlanks ((if sp then [' '] else []) ++ ';' :: c2 :: ' ' :: x).length
+        ((if sp then [' '] else []) ++ ';' :: c2 :: ' ' :: x) = ';' :: c2 :: ' ' :: x := by
+      cases sp with
+      | false => simpa using skipBlanks_stop ';' _ (hk _) (by decide) _
+      | true =>
+        have := skipBlanks_pre true ';' (c2 :: ' ' :: x) (hk _) (by decide)
+          (([' '] ++ ';' :: c2 :: ' ' :: x).length) (by simp)
+        simpa using this
+    unfold lexToken
+    simp only []
+    rw [hsb, skipComment_id ';' _ (hk _) (by decide), ho]
+  cases k with
+  | break_ => exact key ';' .semicolonSemicolon (by simp [lexOperator, opTail, skipLC_cons_ne, List.lookup])
+  | fallThrough => exact key '&' .semicolonAnd (by simp [lexOperator, opTail, skipLC_cons_ne, List.lookup])
+  | continue_ => exact key '|' .semicolonBar (by simp [lexOperator, opTail, skipLC_cons_ne, List.lookup])
+
+/-- the patterns of a case item joined by ` | `, followed by `tail` -/
+def patsText : List Word → List Char → List Char
+  | [], tail => tail
+  | [p], tail => printWord p ++ tail
+  | p :: q :: r, tail => printWord p ++ ' ' :: '|' :: ' ' :: patsText (q :: r) tail
+
+theorem joinWith_pats (ps : List Word) (tail : List Char) :
+    joinWith (str " | ") (ps.map printWord) ++ tail = patsText ps tail := by
+  induction ps with
+  | nil => simp [joinWith, patsText]
+  | cons p ps ih =>
+    cases ps with
+    | nil => simp [joinWith, patsText]
+    | cons q r =>
+      simp only [List.map_cons, joinWith, patsText, List.append_assoc] at ih ⊢
+      rw [ih]
+      simp [str]
+
+/-- each pattern is a token word in front of what follows it -/
+def PatsOk : List Word → List Char → Prop
+  | [], _ => False
+  | [p], tail => TokWordOk p tail
+  | p :: q :: r, tail => TokWordOk p (' ' :: '|' :: ' ' :: patsText (q :: r) tail) ∧ PatsOk (q :: r) tail
+
+/-- the text after the first pattern -/
+def patsRest : List Word → List Char → List Char
+  | [], tail => tail
+  | q :: r, tail => ' ' :: '|' :: ' ' :: patsText (q :: r) tail
+
+theorem patsText_cons (p : Word) (ps : List Word) (tail : List Char) :
+    patsText (p :: ps) tail = printWord p ++ patsRest ps tail := by
+  cases ps <;> simp [patsText, patsRest]
+
+theorem nextOk_rparen_blank (x : List Char) : NextOk (')' :: ' ' :: x) :=
+  ⟨⟨')', ' ' :: x, rfl, ⟨by decide, by decide⟩⟩, by simp [nextIsAngle, skipLC_cons_ne]⟩
+
+theorem nextOk_patsRest (ps : List Word) (x : List Char) : NextOk (patsRest ps (')' :: ' ' :: x)) := by
+  cases ps with
+  | nil => exact nextOk_rparen_blank x
+  | cons q r => exact nextOk_blank _
+
+theorem patsOk_first (p : Word) (ps : List Word) (tail : List Char) (h : PatsOk (p :: ps) tail) :
+    TokWordOk p (patsRest ps tail) ∧ (ps ≠ [] → PatsOk ps tail) := by
+  cases ps with
+  | nil => exact ⟨h, fun e => absurd rfl e⟩
+  | cons q r => exact ⟨h.1, fun _ => h.2⟩
+
+theorem parsePatterns_rt (x : List Char) :
+    ∀ (ps : List Word) (fuel : Nat), ps.length + 1 ≤ fuel → (ps ≠ [] → PatsOk ps (')' :: ' ' :: x)) →
+      parsePatterns fuel (patsRest ps (')' :: ' ' :: x)) = some (ps, ' ' :: x) := by
+  intro ps
+  induction ps with
+  | nil =>
+    intro fuel hf _
+    obtain ⟨k, rfl⟩ : ∃ k, fuel = k + 1 := ⟨fuel - 1, by simp at hf; omega⟩
+    simp [patsRest, parsePatterns, lexToken_rparen, Token.isOp]
+  | cons q r ih =>
+    intro fuel hf h
+    obtain ⟨k, rfl⟩ : ∃ k, fuel = k + 1 := ⟨fuel - 1, by simp at hf; omega⟩
+    obtain ⟨hq, hr⟩ := patsOk_first q r _ (h (by simp))
+    have ht := lexToken_word q _ hq (nextOk_patsRest r x) true
+    simp only [if_true, List.singleton_append] at ht
+    have ih' := ih k (by simp at hf; omega) hr
+    have e : patsRest (q :: r) (')' :: ' ' :: x) =
+        ' ' :: '|' :: ' ' :: (printWord q ++ patsRest r (')' :: ' ' :: x)) := by
+      rw [patsRest, patsText_cons]
+    rw [e]
+    simp only [parsePatterns, lexToken_bar, Token.isOp]
+    simp [ht, Token.isWord, ih']
+
+
+/-- the text of the case items, followed by `after` (= `esac` and what follows) -/
+def caseText : List CaseItem → List Char → List Char
+  | [], after => after
+  | .mk ps b k :: rest, after =>
+    '(' :: patsText ps (')' :: ' ' :: (printList false b ++ (k.str ++ ' ' :: caseText rest after)))
+
+theorem printCaseItems_eq (items : List CaseItem) (after : List Char) :
+    printCaseItems items ++ after = caseText items after := by
+  induction items with
+  | nil => simp [printCaseItems, caseText]
+  | cons i items ih =>
+    obtain ⟨ps, b, k⟩ := i
+    simp only [printCaseItems, caseText, List.cons_append, List.append_assoc]
+    rw [joinWith_pats]
+    simp [str, ih]
+
+/-- every item reads back in its place: its patterns are token words, and its body (possibly empty) is read
+    by `maybe_compound_list` up to the terminator -/
+def CaseItemsRT (pc : CmdParser) : List CaseItem → List Char → Prop
+  | [], _ => True
+  | .mk ps b k :: rest, after =>
+    PatsOk ps (')' :: ' ' :: (printList false b ++ (k.str ++ ' ' :: caseText rest after))) ∧
+    (∃ R, (∀ fuel, 1 ≤ fuel → parseCompoundList pc fuel
+        (' ' :: (printList false b ++ (k.str ++ ' ' :: caseText rest after))) = some (b, R)) ∧
+      lexToken R = some (⟨[], .op (contOp k)⟩, ' ' :: caseText rest after)) ∧
+    CaseItemsRT pc rest after
+
+theorem headOk_caseText (items : List CaseItem) (t : List Char) :
+    HeadOk (caseText items ("esac".toList ++ t)) := by
+  cases items with
+  | nil => exact headOk_kw "esac" kw_esac t
+  | cons i items =>
+    obtain ⟨ps, b, k⟩ := i
+    exact headOk_char _ _ ⟨by decide, by decide, by decide, by decide⟩
+
+theorem caseText_length (items : List CaseItem) (after : List Char) :
+    items.length ≤ (caseText items after).length := by
+  induction items with
+  | nil => simp
+  | cons i items ih =>
+    obtain ⟨ps, b, k⟩ := i
+    have : ∀ (ps : List Word) (tl : List Char), tl.length ≤ (patsText ps tl).length := by
+      intro ps
+      induction ps with
+      | nil => intro tl; simp [patsText]
+      | cons p ps ihp =>
+        intro tl
+        rw [patsText_cons]
+        cases ps with
+        | nil => simp [patsRest]
+        | cons q r =>
+          have := ihp tl
+          simp only [patsRest, List.length_append, List.length_cons]
+          omega
+    have h1 := this ps (')' :: ' ' :: (printList false b ++ (k.str ++ ' ' :: caseText items after)))
+    simp only [caseText, List.length_cons, List.length_append] at h1 ⊢
+    omega
+
+theorem parseCaseItems_rt (pc : CmdParser) (t : List Char) (hn : NextOk t) :
+    ∀ (items : List CaseItem) (fuel : Nat), items.length + 1 ≤ fuel →
+      CaseItemsRT pc items ("esac".toList ++ t) →
+      parseCaseItems pc fuel (' ' :: caseText items ("esac".toList ++ t)) =
+        some (items, ' ' :: ("esac".toList ++ t)) := by
+  intro items
+  induction items with
+  | nil =>
+    intro fuel hf _
+    obtain ⟨k, rfl⟩ : ∃ k, fuel = k + 1 := ⟨fuel - 1, by simp at hf; omega⟩
+    have hsn : ∀ f, skipNewlines f (' ' :: ("esac".toList ++ t)) = ' ' :: ("esac".toList ++ t) := fun f => by
+      simpa using skipNewlines_head _ (headOk_kw "esac" kw_esac t) true f
+    have hl := lexToken_kw_exact "esac" kw_esac t hn true
+    simp only [if_true, List.singleton_append] at hl
+    have e : (Token.mk (digitsWord "esac".toList) (.word true)).isKw "esac" = true := by decide
+    simp only [caseText, parseCaseItems, hsn, hl, e, if_true]
+  | cons i items ih =>
+    intro fuel hf h
+    obtain ⟨k, rfl⟩ : ∃ k, fuel = k + 1 := ⟨fuel - 1, by simp at hf; omega⟩
+    obtain ⟨ps, b, kk⟩ := i
+    obtain ⟨hps, ⟨R, hbody, hcont⟩, hrest⟩ := h
+    have ih' := ih k (by simp at hf; omega) hrest
+    obtain ⟨A, hA⟩ : ∃ A, A = "esac".toList ++ t := ⟨_, rfl⟩
+    rw [← hA] at hps hbody hcont hrest ih' ⊢
+    cases ps with
+    | nil => exact absurd hps (by simp [PatsOk])
+    | cons p ps =>
+      obtain ⟨BT, hBT⟩ : ∃ BT, BT = printList false b ++ (kk.str ++ ' ' :: caseText items A) := ⟨_, rfl⟩
+      rw [← hBT] at hps hbody
+      obtain ⟨hp, hpr⟩ := patsOk_first p ps _ hps
+      have e0 : caseText (.mk (p :: ps) b kk :: items) A =
+          '(' :: (printWord p ++ patsRest ps (')' :: ' ' :: BT)) := by
+        simp only [caseText, patsText_cons, hBT]
+      have hsn : ∀ f, skipNewlines f (' ' :: '(' :: (printWord p ++ patsRest ps (')' :: ' ' :: BT))) =
+          ' ' :: '(' :: (printWord p ++ patsRest ps (')' :: ' ' :: BT)) := fun f => by
+        simpa using skipNewlines_head _
+          (headOk_char '(' (printWord p ++ patsRest ps (')' :: ' ' :: BT))
+            ⟨by decide, by decide, by decide, by decide⟩) true f
+      have hlp : lexToken (' ' :: '(' :: (printWord p ++ patsRest ps (')' :: ' ' :: BT))) =
+          some (⟨[], .op .openParen⟩, printWord p ++ patsRest ps (')' :: ' ' :: BT)) := by
+        simpa using lexToken_lparen (printWord p ++ patsRest ps (')' :: ' ' :: BT)) true
+      have hpt := lexToken_word p _ hp (nextOk_patsRest ps BT) false
+      simp only [Bool.false_eq_true, if_false, List.nil_append] at hpt
+      have hpp := parsePatterns_rt BT ps ((patsRest ps (')' :: ' ' :: BT)).length + 2) (by
+        have : ps.length ≤ (patsRest ps (')' :: ' ' :: BT)).length := by
+          cases ps with
+          | nil => simp
+          | cons q r =>
+            have : ∀ (qs : List Word) (tl : List Char), qs.length ≤ (patsText qs tl).length + 1 := by
+              intro qs
+              induction qs with
+              | nil => intro tl; simp
+              | cons a as iha =>
+                intro tl
+                rw [patsText_cons]
+                cases as with
+                | nil => simp [patsRest]
+                | cons c d =>
+                  have := iha tl
+                  simp only [patsRest, List.length_append, List.length_cons] at this ⊢
+                  omega
+            have := this (q :: r) (')' :: ' ' :: BT)
+            simp only [patsRest, List.length_cons] at this ⊢
+            omega
+        omega) hpr
+      rw [e0]
+      simp only [parseCaseItems, hsn, hlp]
+      simp only [Token.isKw, Token.isWord, Token.isOp, Bool.false_and, Bool.false_eq_true, if_false,
+        decide_true, if_true, hpt]
+      simp only [hpp]
+      rw [hbody _ (one_le_add_two _)]
+      simp only [hcont, caseContOf_contOp, ih', Option.map_some]
+      simp
+
+/-- `case word in (p | q) list;; … esac` -/
+theorem case_rt (pc : CmdParser) (subject : Word) (items : List CaseItem) (t : List Char) (hn : NextOk t)
+    (hs : TokWordOk subject (' ' :: ("in".toList ++ ' ' :: caseText items ("esac".toList ++ t))))
+    (h : CaseItemsRT pc items ("esac".toList ++ t)) (sp : Bool) :
+    parseCompound pc ((if sp then [' '] else []) ++ (printCompound (.caseCmd subject items) ++ t)) =
+      some (some (.caseCmd subject items), t) := by
+  obtain ⟨C, hC⟩ : ∃ C, C = caseText items ("esac".toList ++ t) := ⟨_, rfl⟩
+  rw [← hC] at hs
+  have hin : printCompound (.caseCmd subject items) ++ t =
+      "case".toList ++ ' ' :: (printWord subject ++ (' ' :: ("in".toList ++ ' ' :: C))) := by
+    simp [printCompound, str, hC, ← printCaseItems_eq]
+  obtain ⟨tk, ht, hkw, _, hop⟩ := lexToken_kw' "case" kw_case
+    (' ' :: (printWord subject ++ (' ' :: ("in".toList ++ ' ' :: C)))) (nextOk_blank _) sp
+  have k1 : tk.isKw "{" = false := by rw [hkw]; decide
+  have k2 : tk.isKw "for" = false := by rw [hkw]; decide
+  have k3 : tk.isKw "while" = false := by rw [hkw]; decide
+  have k4 : tk.isKw "until" = false := by rw [hkw]; decide
+  have k5 : tk.isKw "if" = false := by rw [hkw]; decide
+  have k6 : tk.isKw "case" = true := by rw [hkw]; decide
+  have hsub := lexToken_word subject _ hs (nextOk_blank _) true
+  simp only [if_true, List.singleton_append] at hsub
+  have hsn : ∀ f, skipNewlines f (' ' :: ("in".toList ++ ' ' :: C)) = ' ' :: ("in".toList ++ ' ' :: C) :=
+    fun f => by simpa using skipNewlines_head _ (headOk_kw "in" kw_in (' ' :: C)) true f
+  have hinT := lexToken_kw_exact "in" kw_in (' ' :: C) (nextOk_blank _) true
+  simp only [if_true, List.singleton_append] at hinT
+  have e1 : (Token.mk (digitsWord "in".toList) (.word true)).isKw "in" = true := by decide
+  have hci : ∀ f, parseCaseIn (f + 1) (' ' :: ("in".toList ++ ' ' :: C)) = some (' ' :: C) := by
+    intro f
+    simp only [parseCaseIn, hsn, hinT, e1, if_true]
+  have hitems := parseCaseItems_rt pc t hn items ((' ' :: C).length + 2) (by
+    have := caseText_length items ("esac".toList ++ t)
+    rw [hC]; simp only [List.length_cons]; omega) h
+  rw [← hC] at hitems
+  have hes := expectKw_kw "esac" kw_esac.chars kw_esac.ne kw_esac.kw t hn true
+  simp only [if_true, List.singleton_append] at hes
+  rw [hin]
+  simp only [parseCompound, ht, k1, k2, k3, k4, k5, k6, hop, Bool.false_eq_true, if_false, Bool.or_self,
+    if_true, hsub, Token.isWord, Bool.not_true, hci, hitems, hes, Option.map_some]
+
 end YashModel.Syntax
